@@ -30,7 +30,15 @@ _typing = lambda mm, nn, name: z3.And(mm == S("typing"), nn == S(name))
 _renderable = lambda y: z3.And(y != TY.EMPTY, z3.Or(TY.is_class(y), y == TY.ANY, _named(y)), TY.tmodule(y) != S("builtins"))
 _argsuse = lambda y, mm, nn, skip_none: z3.Exists([i], z3.And(0 <= i, i < L.len_(args(y)), z3.BoolVal(True) if not skip_none else L.nth(args(y), i) != TY.NONETYPE,
                                                              uses(L.nth(args(y), i), mm, nn)))
-ax("uses-def", L.FA([t, m, n], uses(t, m, n) == z3.And(
+# the two builtin types that `builtins` does not provide by name are rendered and imported from `types` (C11)
+_NIT, _MP = ENC.HIDDEN["NotImplementedType"], ENC.HIDDEN["mappingproxy"]
+from theories import values_th as _VT0
+ax("hidden-type-objects", z3.And(_VT0.cls_of(L.atom("global", "builtins.NotImplemented")) == _NIT, _VT0.cls_of(L.atom("global", "builtins.type.__dict__")) == _MP, _NIT != _MP))
+ax("uses-hidden", L.FA([m, n], z3.And(uses(_NIT, m, n) == z3.And(m == S("types"), n == S("NotImplementedType")),
+                                      uses(_MP, m, n) == z3.And(m == S("types"), n == S("MappingProxyType"))), [uses(_NIT, m, n)]))
+ax("uses-hidden2", L.FA([m, n], z3.And(uses(_NIT, m, n) == z3.And(m == S("types"), n == S("NotImplementedType")),
+                                       uses(_MP, m, n) == z3.And(m == S("types"), n == S("MappingProxyType"))), [uses(_MP, m, n)]))
+ax("uses-def", L.FA([t, m, n], z3.Implies(z3.And(t != _NIT, t != _MP), uses(t, m, n) == z3.And(
     _renderable(t),
     z3.If(t == TY.ANY, _typing(m, n, "Any"),
           z3.If(kind(t) == K["Union"],
@@ -39,7 +47,7 @@ ax("uses-def", L.FA([t, m, n], uses(t, m, n) == z3.And(
                       z3.Or(_typing(m, n, "Union"), _argsuse(t, m, n, False))),
                 z3.If(_named(t),
                       z3.Or(z3.And(m == TY.tmodule(t), n == root(TY.gname(t))), z3.And(TY.has_args(t), _argsuse(t, m, n, False))),
-                      z3.And(m == TY.tmodule(t), n == root(z3.If(TY.is_tdmeta(t), ENC.td_name(t), ENC.cqual(t)))))))), [(uses(t, m, n), reveal_uses(t))]))
+                      z3.And(m == TY.tmodule(t), n == root(z3.If(TY.is_tdmeta(t), ENC.td_name(t), ENC.cqual(t))))))))), [(uses(t, m, n), reveal_uses(t))]))
 # introduction through an argument (the existential above, as a rule E-matching can use)
 ax("uses-arg-intro", L.FA([t, i, m, n], z3.Implies(z3.And(_renderable(t), kind(t) != K["Union"], _named(t), TY.has_args(t), 0 <= i, i < L.len_(args(t)), uses(L.nth(args(t), i), m, n)),
                                                     uses(t, m, n)), [(uses(L.nth(args(t), i), m, n), reveal_uses(t))]))
